@@ -34,15 +34,17 @@ class E2:
         self.functions = []
 
     # ---- MIR --------------------------------------------------------------------------------
-    def mir_of(self, crate, features=None):
+    def mir_of(self, crate, features=None, crate_name=None):
         """parsed MIR of one workspace crate of the scratch copy (nightly -Zunpretty=mir), cached per run"""
         if crate in self.crate_fns:
             return self.crate_fns[crate]
+        key = crate
+        crate = crate_name or crate
         t0 = time.time()
         env = dict(os.environ)
         env["CARGO_NET_OFFLINE"] = "true"
         env.pop("RUSTUP_TOOLCHAIN", None)
-        out = os.path.join(self.ws.root, "%s.mir" % crate)
+        out = os.path.join(self.ws.root, "%s.mir" % key.replace("+", "_"))
         lib = os.path.join(self.ws.ws, crate, "src", "lib.rs")
         os.utime(lib, None)
         cmd = ["cargo", "+nightly", "rustc", "--offline", "-p", crate, "--lib"]
@@ -55,10 +57,10 @@ class E2:
         text = open(out).read()
         if rc != 0 or "fn " not in text:
             raise C.Shape("MIR dump of %s failed (rc=%s); see mir-dump-%s.log" % (crate, rc, crate))
-        self.crate_fns[crate] = parse_mir(text)
+        self.crate_fns[key] = parse_mir(text)
         self.mir_time += time.time() - t0
         self.mir_cmd = " ".join(cmd)
-        return self.crate_fns[crate]
+        return self.crate_fns[key]
 
     def dump_mir(self):
         if self.fns is not None:
@@ -276,7 +278,7 @@ def engine(pid, spec, tier, ws, out, log_dir, known):
     try:
         want = {pid}
         todo = spec.get("e2", [])
-        if any(t in todo for t in ("get_assertion", "make_credential", "stores", "forwarding", "u2f")):
+        if any(t in todo for t in ("get_assertion", "make_credential", "stores", "forwarding", "u2f", "concurrency")):
             e2.dump_mir()
         npaths = 0
         if "get_assertion" in todo:
@@ -341,6 +343,15 @@ def engine(pid, spec, tier, ws, out, log_dir, known):
                 npaths += len(ps)
                 allp.append(ps)
             findings += C.check_u2f(allp[0], allp[1])
+        if "concurrency" in todo:
+            ps = e2.feasible(e2.run_paths("ga", "authenticator::get_assertion", "get_assertion::{closure#0}"))
+            npaths += len(ps)
+            ft = e2.mir_of("passkey-authenticator+tokio", crate_name="passkey-authenticator", features=["tokio"])
+            f, q, note = C.check_concurrent_counters(ps, ft, e2.ctx, e2.get_solver())
+            findings += f
+            e2.functions.append("<Arc<tokio::sync::Mutex<S>> / Arc<tokio::sync::RwLock<S>> as CredentialStore>::{find_credentials, update_credential} (MIR)")
+            if note:
+                out.extra["e2_note"] = note
         if "forwarding" in todo:
             for method in ("get_info", "make_credential", "get_assertion"):
                 name = e2.find_fn("ctap2::<impl", "::%s::{closure#0}" % method)
